@@ -1125,10 +1125,15 @@ pub fn lwr(
     let block_index = {
         let block = control_flow_graph.new_block()?;
 
-        let address = Expr::sub(Expr::add(base, offset)?, expr_const(3, 32))?;
+        let effective = Expr::add(base, offset)?;
+        let address = Expr::sub(effective.clone(), expr_const(3, 32))?;
 
-        // create a bit mask for dst and the loaded result
-        let mask_bytes = Expr::and(address.clone(), expr_const(3, 32))?;
+        // create a bit mask for dst and the loaded result: (ea & 3) + 1 bytes,
+        // 1 << 32 is 0, so that the mask is all ones when the whole word moves
+        let mask_bytes = Expr::add(
+            Expr::and(effective, expr_const(3, 32))?,
+            expr_const(1, 32),
+        )?;
         let mask_bits = Expr::shl(mask_bytes, expr_const(3, 32))?;
         let mask_bit = Expr::shl(expr_const(1, 32), mask_bits)?;
         let mask = Expr::sub(mask_bit, expr_const(1, 32))?;
@@ -2488,10 +2493,15 @@ pub fn swr(
     let block_index = {
         let block = control_flow_graph.new_block()?;
 
-        let address = Expr::sub(Expr::add(base, offset)?, expr_const(3, 32))?;
+        let effective = Expr::add(base, offset)?;
+        let address = Expr::sub(effective.clone(), expr_const(3, 32))?;
 
-        // create a bit mask for dst and the loaded result
-        let mask_bytes = Expr::and(address.clone(), expr_const(3, 32))?;
+        // create a bit mask for dst and the loaded result: (ea & 3) + 1 bytes,
+        // 1 << 32 is 0, so that the mask is all ones when the whole word moves
+        let mask_bytes = Expr::add(
+            Expr::and(effective, expr_const(3, 32))?,
+            expr_const(1, 32),
+        )?;
         let mask_bits = Expr::shl(mask_bytes, expr_const(3, 32))?;
         let mask_bit = Expr::shl(expr_const(1, 32), mask_bits)?;
         let mask = Expr::sub(mask_bit, expr_const(1, 32))?;
